@@ -29,10 +29,10 @@ RULE = ("cases: package configurations; executions: one plot() call per (n selec
         "(configuration, n selected, mode, form) with more than one curve or more than one selected fit")
 ASSUMPTIONS = ["results come from cube packages fitted at tabulated wavelengths", "tolerance 2e-3 for the rounded physical constants"]
 REQUIRED_CLASSES = ['mode-interp', 'mode-largest', 'mode-largest+smallest', 'mode-all', 'multi-aperture', 'single-aperture', 'mixed-theta', 'form-object', 'form-file', 'five-fits',
-                    'distance-dependent', 'distance-independent', 'cube-wav-ascending', 'several-sources-one-call', 'apertures-stored-decreasing', 'cube-in-Jy', 'second-package-same-names', 'same-call-twice']
+                    'distance-dependent', 'distance-independent', 'cube-wav-ascending', 'several-sources-one-call', 'apertures-stored-decreasing', 'cube-in-Jy', 'second-package-same-names', 'same-call-twice', 'law-in-other-unit', 'filter-wavelengths-in-mixed-units']
 TIMEOUT = {'quick': 600, 'thorough': 3000}
 
-AXES = {'n_ap': [3, 1], 'sord': ['wav-desc', 'wav-asc'], 'theta': ['mixed', 'uniform'], 'memmap': [True, False], 'avr': [(0.0, 5.0), (2.0, 2.0)], 'ap_order': ['inc', 'dec'], 'funit': ['mJy', 'Jy']}
+AXES = {'n_ap': [3, 1], 'sord': ['wav-desc', 'wav-asc'], 'theta': ['mixed', 'uniform'], 'memmap': [True, False], 'avr': [(0.0, 5.0), (2.0, 2.0)], 'ap_order': ['inc', 'dec'], 'funit': ['mJy', 'Jy'], 'wunit': ['micron', 'first-in-Angstrom'], 'law': ['power', 'nonmono@nm']}
 WAV = np.array([24.0, 8.0, 4.5, 2.2, 1.0])
 BANDS = [0, 2, 4]
 MODES = ['interp', 'largest', 'largest+smallest', 'all']
@@ -86,9 +86,17 @@ def run_case(ctx, case, rec, d):
     rec.cls('distance-dependent' if apdep else 'distance-independent')
     if case['sord'] == 'wav-asc':
         rec.cls('cube-wav-ascending')
-    law = fc.law_object('power')
+    law = fc.law_object(case.get('law', 'power'))
+    if case.get('law', 'power') != 'power':
+        rec.cls('law-in-other-unit')
+    # the filter wavelengths may each come in their own length unit
+    wq = [WAV[b] * u.micron for b in BANDS]
+    if case.get('wunit') == 'first-in-Angstrom':
+        wq[0] = wq[0].to(u.AA)
+        wq[2] = wq[2].to(u.mm)
+        rec.cls('filter-wavelengths-in-mixed-units')
     try:
-        ft = Fitter([WAV[b] * u.micron for b in BANDS], np.array(theta) * u.arcsec, md, extinction_law=law, av_range=list(case['avr']),
+        ft = Fitter(wq, np.array(theta) * u.arcsec, md, extinction_law=law, av_range=list(case['avr']),
                     distance_range=np.array([0.6, 2.5]) * u.kpc, use_memmap=case['memmap'])
     except Exception as e:
         from mc.runner import exc_signature
@@ -280,7 +288,7 @@ def run_case(ctx, case, rec, d):
     pkgwriter.write_parameters(md2, names2, {'par1': np.arange(5) + 0.5})
     pkgwriter.write_cube(md2, names2, WAV[::order], val2[:, :, ::order], unc=val2[:, :, ::order] * 0.01, apertures_au=aps if (apdep or n_ap > 1) else None)
     try:
-        ft2 = Fitter([WAV[b] * u.micron for b in BANDS], np.array(theta) * u.arcsec, md2, extinction_law=law, av_range=list(case['avr']),
+        ft2 = Fitter(wq, np.array(theta) * u.arcsec, md2, extinction_law=law, av_range=list(case['avr']),
                      distance_range=np.array([0.6, 2.5]) * u.kpc, use_memmap=case['memmap'])
         info2 = ft2.fit(fc.make_source([1, 1, 1], src_flux, 0.1 * src_flux, name='src2'))
         stored2 = np.asarray(info2.model_fluxes, float).copy()
